@@ -20,7 +20,7 @@ ENTRIES = {
         "text": "spec/PoolTracker.tla models the shrex PoolTracker (candidate pools with voters per announced hash, "
                 "validated pools keyed by data hash, subjective head, eviction window 10, header tasks, 120 s "
                 "validation timeout, event queue drained by poll) with header arrival and time as environment "
-                "actions and distinct data hashes per height. TLC checks exhaustively (2 peers, heights {-12,1,2,11}: "
+                "actions and distinct data hashes per height. TLC checks exhaustively (2 peers, heights {-12,1,11}, thorough {-12,1,2,11}: "
                 "around the eviction boundary and one height more than the window below the store's initial head; "
                 "notifications may arrive before the first poll has learned that head) that offered peers announced the stored header's hash, that every peer "
                 "that announced another hash for a validated height or announced twice is put into a BlockPeers "
@@ -61,12 +61,13 @@ def run(ck):
     # 1. the design
     actions = ["Announce", "RemovePeer", "Arrive", "Advance", "Poll"]
     if ck.quick:
-        mc = ck.cfg_with("MC_PoolTracker.cfg", {"Up": "{1, 2, 11}", "Down": "{12}", "MaxEv": 1})
+        mc = ck.cfg_with("MC_PoolTracker.cfg", {"Up": "{1, 11}", "Down": "{12}", "MaxEv": 2})   # thorough: {1,2,11}
     else:
         mc = ck.cfg_with("MC_PoolTracker.cfg", {"Up": "{1, 2, 11}", "Down": "{12}", "MaxEv": 2})
     ck.tlc_mc("MC_PoolTracker", mc, required_actions=actions, heap="12g")
-    mc2 = ck.cfg_with("MC_PoolTracker.cfg", {"Up": "{1, 11}", "Down": "{}", "MaxEv": 2}, name="MC_PoolTracker_2h.cfg")
-    ck.tlc_mc("MC_PoolTracker", mc2, tag="mc_2h", required_actions=actions)
+    if not ck.quick:   # a deeper event queue on two heights (quick tier: time)
+        mc2 = ck.cfg_with("MC_PoolTracker.cfg", {"Up": "{1, 11}", "Down": "{}", "MaxEv": 2}, name="MC_PoolTracker_2h.cfg")
+        ck.tlc_mc("MC_PoolTracker", mc2, tag="mc_2h", required_actions=actions)
     asis = ck.cfg_with("MC_PoolTracker.cfg", {"Up": "{1, 11}", "Down": "{}", "DupValidated": '"accept"'}, name="MC_PoolTracker_accept.cfg")
     r = ck.tlc_mc("MC_PoolTracker", asis, tag="mc_accept", expect_violation="OwedBlocked")
     if not r.get("expected_violation_reproduced"):
